@@ -75,7 +75,7 @@ def Crypto.hash (C : Crypto) : Alg → Bytes → Bytes
 structure Opts where
   ignoreSignatures : Bool
   noSignatureIndexes : List Text
-  deriving Repr
+  deriving DecidableEq, Repr
 
 /-- the configured keys: file name in /etc/apk/keys → PEM bytes (a Go map: names are distinct) -/
 abbrev Keys := List (Text × Bytes)
